@@ -431,9 +431,11 @@ def _executor(backend: str):
     return _EXE_CACHE[backend]()
 
 
-def query_text(backend: str, expr_src: str) -> str:
+def query_text(backend: str, expr_src: str, injects: Any = ()) -> str:
     b = BACKENDS[backend]
     ds = "EventDataset()"
+    for md in injects:  # user `inject_code` blocks (C14's subject; here only their include lists matter)
+        ds = f"MetaData({ds}, {dict(md, metadata_type='inject_code')!r})"
     for m, t in TYPED_METHODS.items():
         ds = f"MetaData({ds}, {{'metadata_type': 'add_method_type_info', 'type_string': '{b['elem']}', 'method_name': '{m}', 'return_type': '{t}'}})"
     return f"Select(SelectMany({ds}, lambda e: {b['coll']}), lambda j: {expr_src})"
@@ -443,7 +445,27 @@ INCLUDE_RE = re.compile(r'^\s*#include\s*["<]([^">]+)[">]', re.M)
 ASSIGN_RE = re.compile(r"^\s*(_col\w+)\s*=\s*(.*?);\s*$", re.M)
 
 
-def run_pipeline(backend: str, expr_src: str) -> Dict[str, Any]:
+CPP_SUFFIXES = (".cxx", ".cc", ".h", ".hpp", ".C", ".cpp", ".hh")
+_CALL_RE = None
+
+
+def package_of(files: Dict[str, str]) -> List[Dict[str, Any]]:
+    """every rendered C++ file: its includes (an include of another rendered file is named by that file's
+    name) and whether it calls a std:: math function (a C++ name of the live table, or std::pow)"""
+    global _CALL_RE
+    if _CALL_RE is None:
+        names = {r["cpp"] for r in live_rows() if type(r["cpp"]) is str and r["cpp"]} | {"std::pow"}
+        _CALL_RE = re.compile(r"(?<![\w:])(" + "|".join(re.escape(n) for n in sorted(names, key=len, reverse=True)) + r")\s*\(")
+    call_re = _CALL_RE
+    cpp = {f: t for f, t in files.items() if f.endswith(CPP_SUFFIXES)}
+    out = []
+    for f, t in cpp.items():
+        incs = [Path(i).name if Path(i).name in cpp else i for i in INCLUDE_RE.findall(t)]
+        out.append({"name": f, "incs": incs, "calls": bool(call_re.search(t))})
+    return out
+
+
+def run_pipeline(backend: str, expr_src: str, injects: Any = ()) -> Dict[str, Any]:
     """apply_ast_transformations + write_cpp_files on `Select(SelectMany(ds, e -> coll), j -> expr)`;
     returns {"text","declTy","includes"} read from the generated files, or {"err": class, "msg": …}."""
     import logging
@@ -452,7 +474,7 @@ def run_pipeline(backend: str, expr_src: str) -> Dict[str, Any]:
     b = BACKENDS[backend]
     d = Path(tempfile.mkdtemp(prefix="c12_"))
     try:
-        a = ast.parse(query_text(backend, expr_src), mode="eval").body
+        a = ast.parse(query_text(backend, expr_src, injects), mode="eval").body
         exe = _executor(backend)
         a2 = exe.apply_ast_transformations(a)
         info = exe.write_cpp_files(a2, d)
@@ -463,6 +485,10 @@ def run_pipeline(backend: str, expr_src: str) -> Dict[str, Any]:
         shutil.rmtree(d, ignore_errors=True)
         logging.disable(logging.NOTSET)
     main = files.get(b["main"], "")
+    if injects is not None and injects != () or expr_src == "j.pt()":
+        pkg = package_of(files)
+    else:
+        pkg = None
     assigns = ASSIGN_RE.findall(main)
     if len(assigns) != 1:
         return {"err": "Unreadable", "msg": f"{len(assigns)} assignments to an output column in {b['main']}"}
@@ -475,10 +501,11 @@ def run_pipeline(backend: str, expr_src: str) -> Dict[str, Any]:
             break
     if decl is None:
         return {"err": "Unreadable", "msg": f"no declaration of {var}"}
-    return {"text": re.sub(r"\bi_obj\d+", "i_obj", rhs), "declTy": decl, "includes": INCLUDE_RE.findall(main)}
+    return {"text": re.sub(r"\bi_obj\d+", "i_obj", rhs), "declTy": decl, "includes": INCLUDE_RE.findall(main), "package": pkg}
 
 
 _BASELINE: Dict[str, List[str]] = {}
+_BASELINE_PKG: Dict[str, Dict[str, List[str]]] = {}
 
 
 def added_includes(backend: str, includes: List[str]) -> List[str]:
@@ -487,6 +514,7 @@ def added_includes(backend: str, includes: List[str]) -> List[str]:
         if "err" in r:
             raise vlib.InternalError(f"baseline query failed on {backend}: {r}")
         _BASELINE[backend] = r["includes"]
+        _BASELINE_PKG[backend] = {f["name"]: f["incs"] for f in r["package"]}
     base = _BASELINE[backend]
     return sorted(set(i for i in includes if i not in base))
 
@@ -1163,6 +1191,123 @@ def check_resolver(ctx, g) -> None:
                           how=f"find_known_functions().visit(ast.parse('{n}(x)', mode='eval').body).func.cpp_name")
 
 
+# --------------------------------------------------------------------------------------------
+# the whole rendered package: <cmath> must be reachable in every file that calls a math function
+# --------------------------------------------------------------------------------------------
+
+INJECT_VARIANTS: Dict[str, List[Dict[str, Any]]] = {
+    "none": [],
+    "body-lists-cmath": [{"name": "c12_helpers", "body_includes": ["vector", "cmath"]}],
+    "header-lists-cmath": [{"name": "c12_helpers", "header_includes": ["vector", "cmath"], "private_members": ["double m_scale = std::sqrt(2.0);"]}],
+    "both-list-cmath": [{"name": "c12_helpers", "header_includes": ["cmath"], "body_includes": ["cmath", "algorithm"]}],
+    "neither-lists-cmath": [{"name": "c12_a", "header_includes": ["vector"]}, {"name": "c12_b", "body_includes": ["map"]}],
+    "two-blocks": [{"name": "c12_a", "header_includes": ["cmath"]}, {"name": "c12_b", "header_includes": ["string"], "body_includes": ["cmath"]}],
+}
+
+
+def _pkg_job(job) -> Dict[str, Any]:
+    backend, src, variant = job
+    return run_pipeline(backend, src, list(INJECT_VARIANTS[variant]))
+
+
+def package_cases(ctx, g) -> List[Tuple[str, str, Any]]:
+    """(backend, inject variant, expr); corpus cases with an `inject` key first"""
+    pre = [(c["backend"], c["inject"], _tuplify(c["expr"])) for c in vlib.corpus_cases(ID) if c.get("inject") in INJECT_VARIANTS]
+    return pre + _package_cases(ctx, g)
+
+
+def _package_cases(ctx, g) -> List[Tuple[str, str, Any]]:
+    names = [n for n in g["readme"] if n in REF and n != "remquo"]
+    exprs = [call_of("sin"), ("bin", "Add", ("i", 1), ("bin", "Mult", call_of("fabs"), ("i", 2))), ("bin", "Pow", ("m", "pt"), ("i", 2)),
+             call_of("abs"), ("bin", "Div", call_of("hypot"), ("i", 2)), call_of("round"), call_of("ilogb"), call_of("nan")]
+    if ctx.tier == "thorough":
+        exprs += [call_of(n) for n in names if n not in ("sin", "abs", "round", "ilogb", "nan")]
+    nrand = 6 if ctx.tier == "quick" else 120
+    for _ in range(nrand):
+        e = random_expr(ctx.rng, names, ctx.rng.choice([1, 2, 3]))
+        if (called(e) or "Pow" in ops_of(e)) and not in_defect_exclusion(e):
+            exprs.append(e)
+    return [(b, v, e) for e in exprs for b in BACKENDS for v in INJECT_VARIANTS]
+
+
+def judge_package(ctx, cases: List[Tuple[str, str, Any]]) -> List[Dict[str, Any]]:
+    for b in BACKENDS:
+        added_includes(b, [])
+    jobs = [(b, to_src(e), v) for b, v, e in cases]
+    if len(jobs) >= 64:
+        import multiprocessing as mp
+        from concurrent.futures import ProcessPoolExecutor
+
+        try:
+            with ProcessPoolExecutor(max_workers=min(12, os.cpu_count() or 2), mp_context=mp.get_context("fork")) as ex:
+                obs = list(ex.map(_pkg_job, jobs, chunksize=16))
+        except Exception:
+            obs = [_pkg_job(j) for j in jobs]
+    else:
+        obs = [_pkg_job(j) for j in jobs]
+    reqs = []
+    for (b, v, e), o in zip(cases, obs):
+        mds = INJECT_VARIANTS[v]
+        hdr_calls = any("std::" in m for md in mds for m in md.get("private_members", []))
+        reqs.append({"op": "package", "expr": to_json(e, BACKENDS[b]["sep"]), "backend": b, "hdrCalls": hdr_calls,
+                     "injects": [{"header_includes": md.get("header_includes", []), "body_includes": md.get("body_includes", [])} for md in mds]})
+        reqs.append({"op": "pkgspec", "files": o.get("package") or []})
+    ans = ctx.driver(DRIVER, reqs)
+    return [{"backend": b, "variant": v, "expr": e, "src": to_src(e), "obs": o, "model": ans[2 * i], "spec": ans[2 * i + 1]} for i, ((b, v, e), o) in enumerate(zip(cases, obs))]
+
+
+def package_why(r) -> Optional[str]:
+    if "err" in r["obs"] or "bad" in r["spec"]:
+        return None
+    if not r["spec"].get("holds", False):
+        return f"the rendered {r['spec'].get('culprit')} calls a std:: math function but <cmath> is not included there, nor by a rendered header it includes"
+    return None
+
+
+def check_package(ctx, g) -> None:
+    recs = judge_package(ctx, package_cases(ctx, g))
+    for r in recs:
+        ctx.count("package:" + r["variant"])
+        if "err" in r["obs"]:
+            ctx.count("package:not-rendered:" + r["obs"]["err"])
+            continue
+        smp = None
+        if r["variant"] == "header-lists-cmath" and ctx.dist.get("sampled:package", 0) < 1:
+            ctx.count("sampled:package")
+            smp = {"backend": r["backend"], "inject_code": INJECT_VARIANTS[r["variant"]], "query_expression": r["src"],
+                   "rendered_cpp_files": [{"name": f["name"], "calls_std_math": f["calls"], "includes": [i for i in f["incs"] if i in ("cmath", "vector") or i.endswith(".h") and "/" not in i]}
+                                          for f in r["obs"]["package"]], "package_spec_on_rendered_files": r["spec"]}
+        ctx.case({"pkg": [r["backend"], r["variant"], r["src"]]}, True, smp)
+        why = package_why(r)
+        if why:
+            ctx.violation(key=f"pkg:{r['backend']}:{r['variant']}:{r['src']}", what=f"{r['src']} on {r['backend']} with inject_code {INJECT_VARIANTS[r['variant']]}: {why}",
+                          case={"backend": r["backend"], "expr": r["expr"], "src": r["src"], "inject": r["variant"]},
+                          observed={"rendered_cpp_files": r["obs"]["package"]}, how=HOW + " (wrap the dataset in MetaData(ds, {'metadata_type': 'inject_code', ...}) as given in `what`)")
+        # the tie: per file, what the model's package adds to the baseline vs what the rendered file adds
+        if "bad" in r["model"] or "err" in r["model"]:
+            if "err" in r["model"]:
+                ctx.disagreement("package: the model refuses an expression the translator renders", {"backend": r["backend"], "src": r["src"]}, r["model"], "rendered")
+            continue
+        base = _BASELINE_PKG[r["backend"]]
+        seen = {f["name"]: f for f in r["obs"]["package"]}
+        for mf in r["model"]["files"]:
+            of = seen.get(mf["name"])
+            if of is None:
+                ctx.disagreement("package: files rendered", {"backend": r["backend"], "variant": r["variant"], "src": r["src"]}, mf["name"], sorted(seen))
+                continue
+            b0 = set(base.get(mf["name"], []))
+            m_add, o_add = sorted(set(mf["incs"]) - b0), sorted(set(of["incs"]) - b0)
+            m_str = [i for i in mf["incs"] if i in seen]
+            o_str = [i for i in of["incs"] if i in seen]
+            if m_add != o_add or sorted(set(m_str)) != sorted(set(o_str)) or mf["calls"] != of["calls"]:
+                ctx.disagreement("package: include lists of the rendered C++ files (packageFiles vs write_cpp_files + templates)",
+                                 {"backend": r["backend"], "variant": r["variant"], "src": r["src"], "file": mf["name"]},
+                                 {"added": m_add, "rendered_headers": m_str, "calls": mf["calls"]}, {"added": o_add, "rendered_headers": o_str, "calls": of["calls"]})
+        for of in r["obs"]["package"]:
+            if of["calls"] and of["name"] not in {mf["name"] for mf in r["model"]["files"]}:
+                ctx.disagreement("package: a rendered file the model does not know calls a math function", {"backend": r["backend"], "src": r["src"]}, None, of["name"])
+
+
 def run(ctx):
     g = getattr(ctx, "gen", None) or read_all()
     if g["unrecognised"]:
@@ -1194,8 +1339,10 @@ def run(ctx):
     check_table(ctx, g)
     # 3. name resolution
     check_resolver(ctx, g)
+    # 3b. the whole rendered package, with and without inject_code metadata
+    check_package(ctx, g)
     # 4. corpus, then every documented function standalone and inside arithmetic, then random expressions
-    cases = [("corpus", c["backend"], _tuplify(c["expr"])) for c in vlib.corpus_cases(ID)]
+    cases = [("corpus", c["backend"], _tuplify(c["expr"])) for c in vlib.corpus_cases(ID) if "inject" not in c]
     for stream, b, e in main_cases(ctx, g):
         ex = in_defect_exclusion(e)
         if ex:
@@ -1296,6 +1443,16 @@ def search(ctx, broken):
 
 def replay(ctx, rep) -> int:
     case = rep.get("case") or {}
+    if "expr" in case and "inject" in case:
+        r = judge_package(ctx, [(case["backend"], case["inject"], _tuplify(case["expr"]))])[0]
+        print("query expression:", r["src"], " backend:", r["backend"], " inject_code:", INJECT_VARIANTS[case["inject"]])
+        for f in (r["obs"].get("package") or []):
+            print("  rendered", f["name"], "calls a std:: math function:", f["calls"], " includes:", f["incs"])
+        print("model's package:", r["model"])
+        print("package spec on the rendered files:", r["spec"])
+        why = package_why(r) or ("not rendered: " + r["obs"]["err"] if "err" in r["obs"] else None)
+        print("verdict:", why or "holds")
+        return 1 if why else 0
     if "expr" in case:
         r = judge(ctx, [("replay", case["backend"], _tuplify(case["expr"]))], numeric="always")[0]
         print("query expression:", r["src"], " backend:", r["backend"])
@@ -1335,7 +1492,7 @@ THEOREMS = ["FaxVerif.C12." + t for t in [
     "table_arith", "spec_row", "callable_by_value_partial", "callable_by_value_counterexample",
     "documented_accepted", "rows_reached_partial", "cfg_ok",
     "resolver_spec", "replaced_iff", "call_emitted", "includes_of_called", "usable_in_arithmetic", "scoped_faithful", "refused_only_unresolved",
-    "computes_namesake_partial", "spec_partial", "documented_plain_partial", "documented_scoped_partial", "abs_scope_partial", "documented_never_refused", "documented_clean_scoped", "c12_partial",
+    "package_spec", "package_spec_discriminates", "package_partial", "computes_namesake_partial", "spec_partial", "documented_plain_partial", "documented_scoped_partial", "abs_scope_partial", "documented_never_refused", "documented_clean_scoped", "c12_partial",
     "computes_namesake_counterexample_remquo", "computes_namesake_counterexample_abs_int",
 ]]
 RULE = (
@@ -1346,7 +1503,9 @@ RULE = (
     "function (arguments by parameter kind: method values, int literal / int method, string constant) standalone and in 10 arithmetic contexts "
     "(*2+1, /2, 1-F, -F, F**2, atan(F), F+cos(eta), (F+int)*float, F/0.5, F+1/2), random expressions of depth <= 3 (quick) / 5 (thorough) over "
     "documented functions, + - * / **, unary + -, int/float constants, double/int/float method values, and expressions outside the documented fragment "
-    "(unknown names, module-less bindings, strings in arithmetic, %, not, @, ~). Inputs inside the listed defect classes (remquo; abs-of-integers "
+    "(unknown names, module-less bindings, strings in arithmetic, %, not, @, ~); (d) the whole rendered package on the three backends for queries using a math "
+    "function or **, without and with five shapes of inject_code metadata whose header_includes / body_includes do or do not list cmath: every rendered C++ file that "
+    "calls a std:: math function must include cmath directly or through a rendered header it includes (every such case is non-trivial). Inputs inside the listed defect classes (remquo; abs-of-integers "
     "under a division) are produced only by the findings stream; the repaired ones (round, ilogb/2, the rounding rows, sin(x)*2) are replayed on every run. A case is non-trivial when it is a documented expression containing at least one "
     "function call; distinct = distinct (backend, expression)."
 )
@@ -1355,6 +1514,8 @@ TRUSTED_BASE = [
     "(parameters of visit_Call, vars() of the imported module, python's builtins); the generated rows are compared with functions_to_replace at run time",
     "hand models of find_known_functions.visit_Call, visit_function_ast, visit_BinOp, visit_special_BinOp, visit_UnaryOp, most_accurate_type (Model.lean) tied to the "
     "code by the correspondence streams of this run (text, declared type and added include files of the generated C++)",
+    "hand model of the include lists write_cpp_files hands to the templates and of which rendered file includes which (packageFiles), tied by comparing, per rendered "
+    "C++ file, what it adds to a baseline query; `calls a math function` is a regular expression over the rendered text (table C++ names and std::pow)",
     "MathFn / meaningPy / meaningCpp / MathFn.params / cppRet: my reading of ISO C++ <cmath> (which name is which function, which header, signatures, result types); "
     "checked against g++ 12 + glibc by compiling every emitted expression with exactly the includes the translator added and comparing values",
     "parseCpp (Lean) reads the emitted text back; parse(render t) = t is tested on every model output, not proved",
@@ -1374,7 +1535,7 @@ LEVEL_TEXT = (
     "is resolved (through python's eval rule) to a namesake row. For every table, environment and expression of unbounded size: the resolution rule, call "
     "emission, inclusion of the headers of every called function, success and arithmetic type of every accepted expression, the exact cause of each refusal; and for "
     "every expression in the stated scope the emitted C++ term denotes, under the C++ typing rules, the same value as the query under python numerics with every function "
-    "read by its documented name. Two counterexample theorems (remquo, abs(int)/2) mark where the full statement is false of the code."
+    "read by its documented name; and at package level, for any inject_code include lists, every rendered C++ file of the model's package that calls a math function sees <cmath>. Two counterexample theorems (remquo, abs(int)/2) mark where the full statement is false of the code."
 )
 LEVEL_NOTE = (
     "Theorem: table facts (all rows), resolver/emission facts (all expressions), namesake semantics for expressions with int/double operands, + - * / **, unary + -, and "
